@@ -80,6 +80,10 @@ def offsets(n, parts):
     return sorted(set(i * n // parts for i in range(parts)))
 
 
+UNSUPPORTED = ["period", "interval", "complex128", "cat_period", "cat_interval", "cat_complex", "mixed"]
+OBJ_ENCODINGS = ["infer", "utf8", "json", "dict_other", "dict_it"]
+
+
 def rng_pos(grp, via, rf):
     """deterministic spread of the unknown name's position inside its group over the or3 variants"""
     return ["first", "middle", "last"][(len(grp) + len(via) + int(rf)) % 3]
@@ -161,6 +165,12 @@ def all_variants():
             add("plain_pon_missing", "validation")
             add("plain_hasnulls_missing", "validation")
             if nrg == 2:
+                # plain (non-append) write of an unsupported dtype FAMILY onto the existing dataset: refused by make_metadata before any
+                # file call whatever object_encoding says (mixed objects: only under the default 'infer')
+                for fam in UNSUPPORTED:
+                    for oe in (["infer"] if fam == "mixed" else OBJ_ENCODINGS):
+                        for pos in ("first", "middle", "last"):
+                            add("plain_unsupported_family", "validation", family=fam, oe=oe, pos=pos)
                 # reads: the number of row groups is irrelevant; every shape below is run in BOTH tiers
                 for via in ("to_pandas", "iter_row_groups", "head"):
                     for pos in ("first", "middle", "last"):
@@ -250,6 +260,13 @@ def build(v, rng, sid):
         frame1[idx][0] = 7
     elif kind == "dup_col":
         frame1[1][0] = frame1[0][0]
+    elif kind == "plain_unsupported_family":
+        kw["append"] = False
+        tgt = order[idx]
+        frame1[idx][1] = v["family"]
+        frame1[idx][2] = [1] * n1
+        other = [c for c in order if c != tgt][0]
+        kw["object_encoding"] = {"infer": "infer", "utf8": "utf8", "json": "json", "dict_other": {other: "utf8"}, "dict_it": {tgt: rng.choice(["utf8", "json", "bytes"])}}[v["oe"]]
     elif kind.startswith("plain_"):
         kw["append"] = False
         kw["object_encoding"] = {"b": "int", "s": "utf8"}
@@ -376,6 +393,9 @@ def abstract_request(sc, pf):
     for i, l in enumerate(L.labels(sc["frame1"])):
         if l in ignore:
             typed.append(1)
+            continue
+        if sc["frame1"][i][1] in UNSUPPORTED:
+            typed.append(0)          # by the generator's intent: a dtype family the format cannot hold (not asked of the code under test)
             continue
         try:
             oe = kw.get("object_encoding")
@@ -575,9 +595,9 @@ def run(ctx):
     if ctx.quick():
         by = {}
         for v in variants:
-            by.setdefault((v["state"], v["kind"]), []).append(v)
+            by.setdefault((v["state"], v["kind"], v.get("family"), v.get("oe")), []).append(v)
         variants = [v for _, vs in sorted(by.items())
-                    for v in (vs if vs[0]["kind"].startswith("read_") else rng.sample(vs, min(len(vs), 4 if vs[0]["expect"] == "late" else 2)))]
+                    for v in (vs if vs[0]["kind"].startswith("read_") else rng.sample(vs, min(len(vs), 1 if vs[0].get("family") else (4 if vs[0]["expect"] == "late" else 2))))]
     else:
         variants = variants * 3                   # three random frames / parameter draws per variant
     scs = [build(v, rng, i) for i, v in enumerate(variants)]
@@ -619,6 +639,8 @@ def run(ctx):
         if res.get("setup_fallback"):
             ctx.count("setup_fallback", res["setup_fallback"][:60])
         ctx.count("position", "%s/%s" % (v.get("pos"), v.get("rg")))
+        if v.get("family"):
+            ctx.count("unsupported_family", "%s/%s/%s" % (v["family"], v["oe"], v["pos"]))
         if v["kind"].startswith("read_"):
             ctx.count("read_shape", "%s/%s/grp=%s/pos=%s/%s/row_filter=%s" % (v["kind"], v.get("shape"), v.get("grp"), v.get("pos"), v.get("via"), v.get("row_filter")))
         ctx.count("outcome", "%s/%s/%s" % (v["expect"], "raised" if res["raised"] else "returned", res["read"]))
